@@ -77,6 +77,8 @@ def handleC01 (args impl : List String) : Option String :=
   match impl with
   | "parse-error" :: _ => some "ok parse-error"
   | _ =>
+  -- a panic inside `parse` is C04's (and C05's) business, like a panic of the evaluation below
+  if (impl.head?.map (·.startsWith "parse-panic")).getD false then some "ok panic" else
   match decode impl, args with
   | some (ctx, e, res), d :: _ =>
     match d.toInt? with
